@@ -98,6 +98,24 @@ function grammarPrograms() {
     "type A = `${A}`;",
     "type A = StringFormatExtends<A, 'f1'>;",
   ];
+  // every type without a finite unfolding (alias cycles, self-referential union / intersection / key sets) as the
+  // operand of every construct that has to look INSIDE its operand
+  {
+    const cyc = [
+      ["type C = D; type D = C;", "C"],
+      ["type C = C;", "C"],
+      ["type C = D | 'a'; type D = C | 'b';", "C"],
+      ["type C = D & { a: 1 }; type D = C & { b: 1 };", "C"],
+      ["type C = D; type D = E; type E = C;", "C"],
+      ["interface C extends D { a: 1 } interface D extends C { b: 1 }", "C"],
+    ];
+    const uses = [
+      "Partial<%>", "Required<%>", "Readonly<%>", "Pick<%, 'a'>", "Omit<%, 'a'>", "Pick<{ a: 1 }, %>", "Omit<{ a: 1 }, %>", "Record<%, 1>", "Record<'a', %>", "keyof %", "%['a']", "{ a: 1 }[%]",
+      "{ [K in %]: 1 }", "{ [K in keyof %]: %[K] }", "Exclude<%, 'a'>", "Exclude<'a' | 'b', %>", "% extends string ? 1 : 2", "string extends % ? 1 : 2", "`x${%}`", "[...%]", "[1, ...%]", "%[number]",
+      "NonNullable<%>", "Extract<%, 'a'>", "Array<%>['length']", "{ a: % }['a']", "(% | 1)['a']", "keyof (% & { z: 1 })", "Partial<% & { z: 1 }>", "Omit<% | { z: 1 }, 'z'>",
+    ];
+    for (const [decl, n] of cyc) for (const u of uses) rec.push(`${decl} type A = ${u.replace(/%/g, n)};`);
+  }
   for (const r of rec) progs.push({ note: "recursion shape", shape: "recursion shape `" + r + "`", files: { "entry.ts": `${r}\nexport const Parsers = parse.buildParsers<{ A: A }>();\n` }, types: [r] });
   // entry-point shapes
   const entries = [
